@@ -578,9 +578,11 @@ def check_opt(c, spec, folder, lines, pending):
     lines.append(line)
     pending.append(("opt", case, obs, names, times, t0))
     if spec1 is not None:
-        line1 = dict(line, params=dict(line["params"], code=[[k, pval_wire(v)] for k, v in spec1["src"]["code"].items()]))
+        # the model decides itself which member's values resolve what (bounds/nominal: member 0)
+        line1 = dict(line, params=dict(line["params"], member=1,
+                                       code1=[[k, pval_wire(v)] for k, v in spec["src"]["code1"].items()]))
         lines.append(line1)
-        pending.append(("opt1", case1, obs1, names, times, t0))
+        pending.append(("opt1", case1, dict(obs, **obs1), names, times, t0))
     c.sample({"stream": "opt", "model": spec["text"], "sources": spec["src"], "inherited_bounds": spec["inherited"]}, limit=3)
 
 
@@ -782,7 +784,9 @@ def run(c):
         "generated Modelica models: 1-3 states, Real/Integer/Boolean algebraics, inputs (control / fixed / Boolean / "
         "lookup / delay), outputs; every attribute absent / literal / affine in a parameter (incl. a parameter "
         "without value); fixed true/false/absent; parameter sources model / parameters.csv / code (and a deleted "
-        "parameter); inherited bounds from a base class; simulation: start x fixed x initial_state x seed.  "
+        "parameter); a second ensemble member with its own parameter values (start values per member, bounds and "
+        "nominals from member 0); inherited bounds from a base class; simulation: start x fixed x initial_state x "
+        "seed x set_var parameter overrides.  "
         "distinct = (stream, observable, attribute kinds, type, source) tuples"
     )
     c.assumptions = [
@@ -814,7 +818,7 @@ def run(c):
             elif pend[0] == "opt":
                 compare_opt(c, mo, *pend[1:])
             elif pend[0] == "opt1":
-                compare_opt(c, mo, *pend[1:], member_only=True)
+                compare_opt(c, mo, *pend[1:])
             else:
                 compare_sim(c, mo, *pend[1:])
     # F5
